@@ -429,6 +429,15 @@ func drawRandom(t *rapid.T) Case {
 	mutateWitness(t, &c)
 	c.Alt = drawPaths(t, &c.P, rapid.IntRange(0, 5).Draw(t, "altPaths"))
 	c.Gen = mode
+	// the median of an even window is a midpoint and may carry half a second; locks are whole seconds
+	switch rapid.IntRange(0, 5).Draw(t, "medianNanos") {
+	case 0:
+		c.TN = 500_000_000
+	case 1:
+		c.TN = rapid.SampledFrom([]int64{1, 999_999_999}).Draw(t, "medianNanosEdge")
+	case 2:
+		c.TN = rapid.Int64Range(1, 999_999_999).Draw(t, "medianNanosAny")
+	}
 	return c
 }
 
